@@ -865,6 +865,9 @@ class Walker:
                 if self.block(st.body):
                     return True
             return False
+        red = self._reduction(st, it)
+        if red is not None:
+            return False
         self.emit("test", ("iter", it), st.iter)
         assigned = self._loop_prologue(st.body, st.orelse)
         saved_g, saved_i = self.guards, self.iters
@@ -884,6 +887,64 @@ class Walker:
         if st.orelse:
             self.block(st.orelse)
         return False
+
+    def _reduction(self, st: ast.For, it: Term) -> Optional[bool]:
+        """`m = None; for x in xs: if p(x) and (m is None or x > m): m = x` is `m = max((x for x in xs if p(x)),
+        default=None)` (likewise min with <): the explicit loop is read as the aggregate it computes."""
+        if not isinstance(st, ast.For) or st.orelse or len(st.body) != 1 or not isinstance(st.body[0], ast.If) or not isinstance(st.target, ast.Name):
+            return None
+        iff = st.body[0]
+        if iff.orelse or len(iff.body) != 1 or not isinstance(iff.body[0], ast.Assign) or len(iff.body[0].targets) != 1:
+            return None
+        asg = iff.body[0]
+        if not (isinstance(asg.targets[0], ast.Name) and isinstance(asg.value, ast.Name) and asg.value.id == st.target.id):
+            return None
+        m, x = asg.targets[0].id, st.target.id
+        if T.strip(self.env.get(m, T.var(m))) != T.NONE or m == x:
+            return None
+        conds = list(iff.test.values) if isinstance(iff.test, ast.BoolOp) and isinstance(iff.test.op, ast.And) else [iff.test]
+        kind = None
+        rest = []
+        for cnd in conds:
+            k2 = None
+            if isinstance(cnd, ast.BoolOp) and isinstance(cnd.op, ast.Or) and len(cnd.values) == 2:
+                a, b = cnd.values
+                isnone = lambda n: isinstance(n, ast.Compare) and len(n.ops) == 1 and isinstance(n.ops[0], ast.Is) and isinstance(n.left, ast.Name) and n.left.id == m \
+                    and isinstance(n.comparators[0], ast.Constant) and n.comparators[0].value is None  # noqa: E731
+                if isnone(b):
+                    a, b = b, a
+                if isnone(a) and isinstance(b, ast.Compare) and len(b.ops) == 1 and isinstance(b.left, ast.Name) and isinstance(b.comparators[0], ast.Name):
+                    l, r, op = b.left.id, b.comparators[0].id, b.ops[0]
+                    if (l, r) == (x, m):
+                        k2 = "max" if isinstance(op, (ast.Gt, ast.GtE)) else "min" if isinstance(op, (ast.Lt, ast.LtE)) else None
+                    elif (l, r) == (m, x):
+                        k2 = "max" if isinstance(op, (ast.Lt, ast.LtE)) else "min" if isinstance(op, (ast.Gt, ast.GtE)) else None
+            if k2 is not None and kind is None:
+                kind = k2
+            else:
+                if any(isinstance(n, ast.Name) and n.id == m for n in ast.walk(cnd)):
+                    return None
+                rest.append(cnd)
+        if kind is None:
+            return None
+        xv = T.var(x)
+        saved_env = self.env.get(x)
+        self.env.pop(x, None)
+        saved_g, saved_i = self.guards, self.iters
+        self.iters = saved_i + (("it", xv, it),)
+        self._comp_depth += 1            # the tests are part of the aggregate, not events of their own
+        n0 = len(self.events)
+        gs = tuple(("g", self.expr(cnd), True) for cnd in rest)
+        del self.events[n0:]
+        self._comp_depth -= 1
+        self.guards, self.iters = saved_g, saved_i
+        if saved_env is not None:
+            self.env[x] = saved_env
+        else:
+            self.env[x] = xv
+        agg = ("agg", kind, ("bag", (("elem", xv, gs, (("it", xv, it),)),), "args"), (("default", T.NONE),))
+        self.bind(m, agg, st)
+        return True
 
     s_AsyncFor = s_For
 
@@ -1269,10 +1330,14 @@ def alias_fields(events: List[Event]) -> List[Event]:
                 if path[0] == "attr":
                     attrs.add(path[2])
                 else:
-                    if path[2][0] not in ("var", "const"):
+                    ix = path[2]
+                    while ix[0] == "attr":          # an index that is itself a plain access path (`self.sims[src._sid]`)
+                        attrs.add(ix[2])
+                        ix = ix[1]
+                    if ix[0] not in ("var", "const"):
                         ok = False
-                    if path[2][0] == "var":
-                        roots.add(path[2])
+                    if ix[0] == "var":
+                        roots.add(ix)
                 path = path[1]
             if not ok or path[0] != "var" or path == v:
                 continue
@@ -1496,6 +1561,10 @@ def is_new_helper(fi: FuncInfo) -> bool:
     return not isinstance(fi.node, ast.Lambda) and fi.qualname not in known_functions()
 
 
+def _is_context_manager(fi: FuncInfo) -> bool:
+    return not isinstance(fi.node, ast.Lambda) and any(ast.unparse(d).rsplit(".", 1)[-1] in ("contextmanager", "asynccontextmanager") for d in fi.node.decorator_list)
+
+
 def spliceable(prog: Program, fi: FuncInfo, callee: FuncInfo) -> bool:
     if isinstance(callee.node, ast.Lambda) or callee.qualname == fi.qualname:
         return False
@@ -1506,6 +1575,8 @@ def spliceable(prog: Program, fi: FuncInfo, callee: FuncInfo) -> bool:
         # helpers introduced after the pinned tree: sync or async (when awaited at the call), functions or
         # methods, of any module of the package
         cs = summarise(prog, callee)
+        if _is_context_manager(callee):
+            return len(cs.events) <= 200 and sum(1 for e in cs.events if e.kind == "yield") == 1
         if any(e.kind == "yield" for e in cs.events):
             # a generator helper is read as the collection of what it yields, provided that producing the
             # values has no effects of its own (then it does not matter when the body runs)
@@ -1822,6 +1893,7 @@ def _splice_pass(prog: Program, fi: FuncInfo, events: List[Event]) -> Tuple[List
     changed = False
     skip_await_of: Set[Term] = set()
     survived: Tuple[Term, ...] = ()      # "the spliced helper did not raise": holds for everything after its call
+    pending_cm: List[Tuple] = []         # context-manager helpers whose `with` body is being copied
     for e in events:
         term = T.replace(e.term, subst) if subst else e.term
         guards = T.replace(e.guards, subst) if subst else e.guards
@@ -1830,8 +1902,42 @@ def _splice_pass(prog: Program, fi: FuncInfo, events: List[Event]) -> Tuple[List
         iters = T.replace(e.iters, subst) if subst else e.iters
         if e.kind == "await" and e.term in skip_await_of:
             continue              # the await of a spliced coroutine helper: its own awaits stand here now
+        # leaving the body of a `with` over a spliced context manager: what it does after its yield happens here
+        while pending_cm and id(e.stmt) not in pending_cm[-1][0]:
+            _ids, post, ctx_g, ctx_i, ctx_t, full_cm, cq = pending_cm.pop()[:7]
+            for ce in post:
+                add(ce.kind, T.replace(ce.term, full_cm), ce.node, e.stmt, ctx_g + T.replace(ce.guards, full_cm), ctx_i + T.replace(ce.iters, full_cm),
+                    ctx_t + ce.tries, ce.awaited, dict(ce.extra, via=cq), raw=T.replace(ce.raw, full_cm))
+        if pending_cm:
+            # inside such a body: under the try context of the yield
+            ytries = tuple(t for pc in pending_cm for t in pc[7])
+            e = Event(e.idx, e.kind, e.term, e.raw, e.node, e.stmt, e.guards, e.iters, e.tries[:pending_cm[0][8]] + ytries + e.tries[pending_cm[0][8]:], e.awaited, e.extra)
         callee, recv = _resolve_callee(prog, fi, e) if (e.kind == "call" and "spliced_call" not in e.extra) else (None, None)
-        if callee is not None and spliceable(prog, fi, callee) and (not callee.is_async or e.awaited):
+        if callee is not None and _is_context_manager(callee) and is_new_helper(callee) and spliceable(prog, fi, callee) and isinstance(e.stmt, (ast.With, ast.AsyncWith)) \
+                and any(it.context_expr is e.node for it in e.stmt.items):
+            args = T.replace(e.term[2], subst) if subst else e.term[2]
+            kws = T.replace(e.term[3], subst) if subst else e.term[3]
+            mapping = _bind_params(callee, None, args, kws)
+            if mapping is not None:
+                cs = spliced(prog, callee)
+                y = [ce for ce in cs.events if ce.kind == "yield"][0]
+                add("spliced", ("marker", callee.qualname), e.node, e.stmt, guards, iters, e.tries, e.awaited, dict(e.extra, spliced_call=callee.qualname))
+                full = {T.var(n): T.var(f"{n}§{callee.name}") for n in cs.locals if T.var(n) not in mapping}
+                full.update(mapping)
+                off = 1000 * (1 + len(out))
+                renum = lambda tr: tuple((tid + off, role) for tid, role in tr)  # noqa: E731
+                for ce in cs.events:
+                    if ce.idx < y.idx and ce.kind != "return":
+                        add(ce.kind, T.replace(ce.term, full), ce.node, e.stmt, guards + T.replace(ce.guards, full), iters + T.replace(ce.iters, full),
+                            e.tries + renum(ce.tries), ce.awaited, dict(ce.extra, via=callee.qualname), raw=T.replace(ce.raw, full))
+                post = [Event(ce.idx, ce.kind, ce.term, ce.raw, ce.node, ce.stmt, ce.guards, ce.iters, renum(ce.tries), ce.awaited, ce.extra)
+                        for ce in cs.events if ce.idx > y.idx and ce.kind != "return"]
+                body_ids = {id(n) for st2 in e.stmt.body for n in ast.walk(st2)} | {id(e.stmt)}
+                pending_cm.append((body_ids, post, tuple(guards), tuple(iters), tuple(e.tries), full, callee.qualname, renum(y.tries), len(e.tries)))
+                subst[("enter", e.term)] = T.replace(y.term, full)
+                changed = True
+                continue
+        if callee is not None and not _is_context_manager(callee) and spliceable(prog, fi, callee) and (not callee.is_async or e.awaited):
             args = T.replace(e.term[2], subst) if subst else e.term[2]
             kws = T.replace(e.term[3], subst) if subst else e.term[3]
             mapping = _bind_params(callee, T.replace(recv, subst) if (recv is not None and subst) else recv, args, kws)
@@ -1877,6 +1983,11 @@ def _splice_pass(prog: Program, fi: FuncInfo, events: List[Event]) -> Tuple[List
                 changed = True
                 continue
         add(e.kind, term, e.node, e.stmt, guards, iters, e.tries, e.awaited, e.extra, raw=(T.replace(e.raw, subst) if subst else e.raw))
+    while pending_cm:
+        _ids, post, ctx_g, ctx_i, ctx_t, full_cm, cq = pending_cm.pop()[:7]
+        for ce in post:
+            add(ce.kind, T.replace(ce.term, full_cm), ce.node, ce.stmt, ctx_g + T.replace(ce.guards, full_cm), ctx_i + T.replace(ce.iters, full_cm),
+                ctx_t + ce.tries, ce.awaited, dict(ce.extra, via=cq), raw=T.replace(ce.raw, full_cm))
     return out, changed
 
 
